@@ -16,7 +16,9 @@ import (
 
 	v1 "k8s.io/api/core/v1"
 
+	"github.com/NVIDIA/KAI-scheduler/pkg/scheduler/api"
 	"github.com/NVIDIA/KAI-scheduler/pkg/scheduler/api/eviction_info"
+	"github.com/NVIDIA/KAI-scheduler/pkg/scheduler/api/pod_info"
 	"github.com/NVIDIA/KAI-scheduler/pkg/scheduler/api/pod_status"
 	"github.com/NVIDIA/KAI-scheduler/pkg/scheduler/api/podgroup_info"
 	"github.com/NVIDIA/KAI-scheduler/pkg/scheduler/cache"
@@ -95,7 +97,7 @@ type rfRun struct {
 	refused    map[string]int // per preemptor
 }
 
-func rfaultTerms(b *cycle.Built, c cycle.Cluster, ids *core.Ids, calls []cycle.Call, jobOfPod map[string]string, st map[string]int) *rfRun {
+func rfaultTerms(b *cycle.Built, c cycle.Cluster, ids *core.Ids, calls []cycle.Call, jobOfPod map[string]string, st map[string]int, pre string) *rfRun {
 	rr := &rfRun{refused: map[string]int{}}
 	seen := map[string]bool{}
 	for _, cl := range calls {
@@ -109,7 +111,7 @@ func rfaultTerms(b *cycle.Built, c cycle.Cluster, ids *core.Ids, calls []cycle.C
 		}
 		if cl.Kind == "evictfail" {
 			rr.refused[cl.Preemptor]++
-			st["rfault:evicts-refused"]++
+			st[pre+":evicts-refused"]++
 		}
 	}
 	var ss []string
@@ -129,7 +131,7 @@ func rfaultTerms(b *cycle.Built, c cycle.Cluster, ids *core.Ids, calls []cycle.C
 		}
 		ss = append(ss, u.Pair(u.Pos(ids.Of("j:"+j.Name)), core.StatusTerm(t.Status)))
 		if p.Status == pod_status.Pending {
-			st["rfault:final-"+core.StatusTerm(t.Status)]++
+			st[pre+":final-"+core.StatusTerm(t.Status)]++
 		}
 	}
 	rr.statusTerm = u.List(ss)
@@ -212,16 +214,17 @@ func genReclaimMulti(r *u.Rng, sigs bool) progSpec {
 // one is "every Evict for the first-served reclaimer").
 func rfaultFamily(ps progSpec, cfg Config, tag string, maxK, maxJ int) []result {
 	var out []result
+	pre := map[int]string{1: "rfault", 2: "pfault"}[ps.kind]
 	emit := func(es evictSpec) *rfRun {
 		t, l, st, rr := progCase(ps, cfg, tag, nil, &es)
-		st["rfault-oracle:"+es.Kind]++
+		st[pre+"-oracle:"+es.Kind]++
 		if len(rr.refused) > 0 {
-			st["rfault:cases-with-a-refused-evict"]++
+			st[pre+":cases-with-a-refused-evict"]++
 		}
 		if len(rr.preemptors) >= 2 {
-			st["rfault:cases-with->=2-preemptors"]++
+			st[pre+":cases-with->=2-preemptors"]++
 		}
-		out = append(out, result{Term: t, Label: l, Stats: st, Stream: "rfault"})
+		out = append(out, result{Term: t, Label: l, Stats: st, Stream: pre})
 		return rr
 	}
 	base := emit(evictSpec{Kind: "none"})
@@ -259,17 +262,129 @@ func rfaultCorpus() []corpusCase {
 	one := func(ps progSpec, es evictSpec, tag string) func() (string, string, map[string]int) {
 		return func() (string, string, map[string]int) {
 			t, l, st, _ := progCase(ps, Config{Sigs: true, NodeOrder: "binpack"}, tag, nil, &es)
-			st["rfault-oracle:"+es.Kind]++
+			st[map[int]string{1: "rfault", 2: "pfault"}[ps.kind]+"-oracle:"+es.Kind]++
 			return t, l, st
 		}
 	}
 	rw := readmeEvictWorld()
 	tag := "corpus=two-reclaimers-one-over-quota-queue "
+	pw := preemptEvictWorld()
+	ptag := "corpus=two-preemptors-two-queues "
 	return []corpusCase{
+		{"pfault-two-queues-none", one(pw, evictSpec{Kind: "none"}, ptag)},
+		{"pfault-two-queues-evict0", one(pw, evictSpec{Kind: "kth", K: 0}, ptag)},
+		{"pfault-two-queues-evict1", one(pw, evictSpec{Kind: "kth", K: 1}, ptag)},
+		{"pfault-two-queues-job-a", one(pw, evictSpec{Kind: "job", Job: "pending-a"}, ptag)},
+		{"pfault-two-queues-job-b", one(pw, evictSpec{Kind: "job", Job: "pending-b"}, ptag)},
 		{"rfault-readme-none", one(rw, evictSpec{Kind: "none"}, tag)},
 		{"rfault-readme-evict0", one(rw, evictSpec{Kind: "kth", K: 0}, tag)},
 		{"rfault-readme-evict1", one(rw, evictSpec{Kind: "kth", K: 1}, tag)},
 		{"rfault-readme-job-a", one(rw, evictSpec{Kind: "job", Job: "pending-a"}, tag)},
 		{"rfault-readme-job-b", one(rw, evictSpec{Kind: "job", Job: "pending-b"}, tag)},
 	}
+}
+
+// recordPreemptAttempts wraps the session's first IsNonPreemptibleJobOverQueueQuota function (the first
+// thing attemptToPreemptForPreemptor asks; Session.IsNonPreemptibleJobOverQueueQuotaFn consults the first
+// registered function only): the jobs the preempt action attempted, in order (while *active).
+func recordPreemptAttempts(b *cycle.Built, active *bool) *[]string {
+	pops := &[]string{}
+	fns := b.Ssn.IsNonPreemptibleJobOverQueueQuotaFns
+	if len(fns) == 0 {
+		return pops
+	}
+	orig := fns[0]
+	fns[0] = func(j *podgroup_info.PodGroupInfo, ts []*pod_info.PodInfo) *api.SchedulableResult {
+		if *active {
+			*pops = append(*pops, j.Name)
+		}
+		return orig(j, ts)
+	}
+	return pops
+}
+
+// genPreemptFault: 2-3 identical nodes (1 or 2 GPUs) filled by preemptible unit pods (priority 25 / 50) of
+// two or three queues, every queue running at least one; per queue one or two pending unit jobs of a
+// higher priority (60 / 75 / 90 preemptible; 125 non-preemptible, the queue then deserves the whole
+// cluster): at least two eligible preemptors, victims on at least two nodes.
+func genPreemptFault(r *u.Rng, sigs bool) progSpec {
+	n := r.Range(2, 3)
+	g := int64(r.Pick3(1, 1, 2))
+	total := int(int64(n) * g)
+	var c cycle.Cluster
+	for i := 0; i < n; i++ {
+		c.Nodes = append(c.Nodes, core.NodeSpec{Name: fmt.Sprintf("n%d", i+1), Cpu: nodeCPU, Mem: 64 << 30, Gpus: g, Pods: 110})
+	}
+	nq := 2
+	if total >= 3 && r.Chance(1, 3) {
+		nq = 3
+	}
+	names := []string{"qa", "qb", "qc"}[:nq]
+	prio := make([]int, nq)
+	for i := range prio {
+		prio[i] = u.Pick(r, []int{60, 75, 75, 90, 125})
+	}
+	order := make([]int, nq)
+	for i := range order {
+		order[i] = i
+	}
+	u.Shuffle(r, order)
+	for _, i := range order {
+		des := r.Range(0, total)
+		if prio[i] >= 100 {
+			des = total
+		}
+		c.Queues = append(c.Queues, cycle.Queue{Name: names[i], Deserved: float64(des), OverQuota: 1, Priority: u.Pick(r, []int{100, 100, 200})})
+	}
+	owners := make([]int, total)
+	for i := range owners {
+		if i < nq {
+			owners[i] = i
+		} else {
+			owners[i] = r.Intn(nq)
+		}
+	}
+	u.Shuffle(r, owners)
+	for i, o := range owners {
+		node := c.Nodes[i/int(g)].Name
+		name := fmt.Sprintf("v%d", i+1)
+		c.Jobs = append(c.Jobs, cycle.Job{Name: name, Queue: names[o], Priority: int32(u.Pick(r, []int{25, 50, 50})), MinMember: 1,
+			AgeMinutes: 60 + i, StartedMins: r.Range(5, 100), Pods: []core.PodSpec{unitPod(name+"-0", node, pod_status.Running)}})
+	}
+	k := 0
+	for i, q := range names {
+		for x, np := 0, r.Pick3(1, 1, 2); x < np; x++ {
+			k++
+			p := prio[i]
+			if !sigs && r.Chance(1, 3) {
+				p = u.Pick(r, []int{60, 75, 90})
+			}
+			name := fmt.Sprintf("p%d", k)
+			c.Jobs = append(c.Jobs, cycle.Job{Name: name, Queue: q, Priority: int32(p), MinMember: 1, AgeMinutes: 40 - k,
+				Pods: []core.PodSpec{pendingPod(name+"-0", g)}})
+		}
+	}
+	c.Actions = []string{"allocate", "preempt"}
+	depts := map[string]string{}
+	for _, q := range names {
+		depts[q] = "d1"
+	}
+	return progSpec{kind: 2, cluster: c, gpus: g, depts: depts}
+}
+
+// the preempt mirror of seeded/C05-5's README world: two 1-GPU nodes; q-a runs victim-0 (priority 50) on
+// node0, q-b runs victim-1 on node1; each queue holds one pending 1-GPU job of priority 75.
+func preemptEvictWorld() progSpec {
+	c := cycle.Cluster{
+		Nodes:  []core.NodeSpec{{Name: "node0", Cpu: nodeCPU, Mem: 64 << 30, Gpus: 1, Pods: 110}, {Name: "node1", Cpu: nodeCPU, Mem: 64 << 30, Gpus: 1, Pods: 110}},
+		Queues: []cycle.Queue{{Name: "q-a", Deserved: 1, OverQuota: 1, Priority: 100}, {Name: "q-b", Deserved: 1, OverQuota: 1, Priority: 100}},
+		Jobs: []cycle.Job{
+			{Name: "victim-0", Queue: "q-a", Priority: 50, MinMember: 1, AgeMinutes: 60, StartedMins: 30, Pods: []core.PodSpec{unitPod("victim-0-0", "node0", pod_status.Running)}},
+			{Name: "victim-1", Queue: "q-b", Priority: 50, MinMember: 1, AgeMinutes: 61, StartedMins: 30, Pods: []core.PodSpec{unitPod("victim-1-0", "node1", pod_status.Running)}},
+			{Name: "pending-a", Queue: "q-a", Priority: 75, MinMember: 1, AgeMinutes: 10, Pods: []core.PodSpec{pendingPod("pending-a-0", 1)}},
+			{Name: "pending-b", Queue: "q-b", Priority: 75, MinMember: 1, AgeMinutes: 9, Pods: []core.PodSpec{pendingPod("pending-b-0", 1)}},
+		},
+		Actions: []string{"allocate", "preempt"},
+	}
+	return progSpec{kind: 2, cluster: c, gpus: 1, depts: map[string]string{"q-a": "d1", "q-b": "d1"}}
 }
